@@ -368,11 +368,6 @@ static int zip_unequal_in(Node* n, int need_slice, int under_slice) {
   for (size_t i = 0; i < n->nk; i++) if (zip_unequal_in(n->kid[i], need_slice, under_slice || n->kind == K_SLICE)) return 1;
   return 0;
 }
-static int zip_unequal_OLD(Node* n) {
-  if (n->kind == K_ZIP && n->nk >= 2) { size_t l0 = ref_of(n->kid[0]).n; for (size_t i = 1; i < n->nk; i++) if (ref_of(n->kid[i]).n != l0) return 1; }
-  for (size_t i = 0; i < n->nk; i++) if (zip_unequal(n->kid[i])) return 1;
-  return 0;
-}
 enum { A_FWD, A_BWD, A_LEN, A_GET, A_CRASH, A_CONSTRUCT };
 static const char* sig_for(Node* n, int aspect) {
   int walk = aspect == A_FWD || aspect == A_BWD || aspect == A_CRASH;
